@@ -203,9 +203,53 @@ def unequal_class(ds, played=None):
     return 'multi_unequal_far'
 
 
+def _add(a, b):
+    """a + b as sympy builds it for table concatenate: adding the literal 0 is no arithmetic"""
+    if a == {'lit': 0}:
+        return b
+    if b == {'lit': 0}:
+        return a
+    return {'op': 'add', 'a': a, 'b': b}
+
+
+def _table_duration(t):
+    lasts = [ts[-1] for ts in t['chans'].values()]
+    d = lasts[0]
+    for x in lasts[1:]:
+        d = {'op': 'max', 'a': d, 'b': x}
+    return d
+
+
+def normalize(t):
+    """the template as the implementation really builds it: `seq` via table `concatenate` is ONE table whose entry times
+    are the parts' entry times shifted by the accumulated duration (duration + t as EXPRESSIONS: with float parameters
+    this is float arithmetic inside the template, which the specification does not judge; round 5, thorough tier:
+    concatenate(r, r, r) with t_r = 0.7 lasts 3*0.7 = 2.0999999999999996 in binary floating point)"""
+    if isinstance(t, list):
+        return [normalize(x) for x in t]
+    if not isinstance(t, dict):
+        return t
+    if t.get('t') == 'seq' and t.get('via') == 'tconcat' and all(c['t'] == 'table' for c in t['subs']):
+        first = t['subs'][0]
+        chans = {c: [] for c in first['chans']}
+        dur = {'lit': 0}
+        for part in t['subs']:
+            for c, ts in part['chans'].items():
+                chans[c].extend(_add(dur, x) for x in ts)
+            dur = _add(dur, _table_duration(part))
+        out = {k: v for k, v in first.items() if k not in ('chans', 'v', 'interp')}
+        out.update({'t': 'table', 'chans': chans, 'v': {c: [0] * len(ts) for c, ts in chans.items()},
+                    'interp': {c: ['hold'] * len(ts) for c, ts in chans.items()}})
+        if t.get('meas'):
+            out['meas'] = t['meas']
+        return out
+    return {k: normalize(v) if k not in ('m', 'cm', 'cs', 'meas', 'v', 'interp') else v for k, v in t.items()}
+
+
 def root_tpl(case):
-    """the template with the root MappingPT / create_program channel mappings as explicit mapping nodes"""
-    t = case['tpl']
+    """the template with the root MappingPT / create_program channel mappings as explicit mapping nodes (and table
+    concatenations as the one table they are)"""
+    t = normalize(case['tpl'])
     if case.get('rootmap'):
         t = {'t': 'map', 'm': {}, 'cm': dict(case['rootmap']), 'body': t}
     if case.get('cpmap'):
